@@ -31,6 +31,27 @@ SPECS['SshNewKeys'] = lambda o: cat(u8(MSG['NEWKEYS']))
 SPECS['SshUnimplementedMessage'] = lambda o: cat(u8(MSG['UNIMPLEMENTED']), u32(o.f['sequence_number']))
 
 
+# RFC 4253 11.1: byte SSH_MSG_DISCONNECT, uint32 reason code, string description (ISO-10646 UTF-8), string language tag --
+# both strings are always present, an empty one as the four zero octets of its length
+def disconnect(o):
+    from spec.tables import TABLES
+    r = o.f['reason']
+    code = TABLES['SshReasonCode'].get(getattr(r, 'name', None)) if not isinstance(r, V.SEnum) else None
+    if isinstance(r, V.SEnum):
+        members = list(r.cls)
+        code = z3.IntVal(0)
+        for i, m in enumerate(members):
+            if m.name not in TABLES['SshReasonCode']:
+                raise NoSpec('reason code %s' % m.name)
+            code = z3.If(r.idx == i, z3.IntVal(TABLES['SshReasonCode'][m.name]), code)
+    elif code is None:
+        raise NoSpec('reason code')
+    return cat(u8(MSG['DISCONNECT']), u32(code), string(o.f['description']), string(o.f['language']))
+
+
+SPECS['SshDisconnectMessage'] = disconnect
+
+
 # ---- RFC 4251 5: name-list = uint32 length + comma-separated names (US-ASCII), no trailing comma
 def name_list(o):
     items = o.f['_items']
